@@ -5,7 +5,7 @@ import random
 # op -> (arity of int args, special)
 ARGN = {
     "cube": 4, "lbox": 6, "cellrow": 4, "mergemesh": 1, "soup": 3, "nest": 15, "speck": 4, "sphere": 2, "cyl": 5, "tet": 0, "levelset": 4, "extrude": 5, "revolve": 4, "hullpts": 3,
-    "rot": 4, "rot90": 4, "trans": 4, "ltrans": 4, "scale": 4, "hugescale": 2, "scratch": 6, "mirror": 4, "xf": 10,
+    "rot": 4, "rot90": 4, "trans": 4, "ltrans": 4, "scale": 4, "hugescale": 2, "rawhuge": 2, "scratch": 6, "mirror": 4, "xf": 10,
     "add": 2, "sub": 2, "int": 2, "split": 2, "splitplane": 5, "trim": 5, "selfop": 3, "compose": 3,
     "hull": 1, "hull2": 2, "minksum": 4, "minkdiff": 4,
     "refine": 2, "refinelen": 2, "refinetol": 2, "smoothout": 3, "smoothnorm": 2, "smoothmesh": 4, "simplify": 2,
